@@ -247,10 +247,11 @@ def write_replay(pid, kind, payload):
 
 
 def write_evidence(pid, tier, seed, coverage, assumptions, wall, violations):
-    os.makedirs(os.path.join(ROOT, "evidence"), exist_ok=True)
+    evdir = os.environ.get("VERIF_EVIDENCE_DIR") or os.path.join(ROOT, "evidence")
+    os.makedirs(evdir, exist_ok=True)
     ev = dict(property_id=pid, tier=tier, seed=seed, level="proof", coverage=coverage,
               assumptions=assumptions, wall_s=round(wall, 2), violations=violations)
-    json.dump(ev, open(os.path.join(ROOT, "evidence", pid + ".json"), "w"), indent=1)
+    json.dump(ev, open(os.path.join(evdir, pid + ".json"), "w"), indent=1)
 
 
 TRUSTED_BASE = [
